@@ -4,7 +4,9 @@ Decided:
   R09.a  status table: every HTTPException subclass with a literal code carries the standard code of its
          name (matched against http.HTTPStatus), 4xx derive from BadRequest, 5xx from InternalServerError,
          no two classes share a code; the status handed to BaseResponse is the instance code
-         (kwargs.pop('code', self.code));
+         (kwargs.pop('code', self.code)): the read of self.code that produces it -- in the call, in a local, in a
+         **dict -- is evaluated after the one override of self.code; renderings made inside the constructor
+         (default body, adapt) come after the writes of the fields they read;
   R09.b  format table: every format of MIME_SUPPORT_MAP has a to_<fmt> method; DEFAULT_MIME is a key; in
          adapt() body and Content-Type come from the same (format, mimetype) pair on both branches (the
          fallback for an unsupported type -- KeyError handler, ``not in`` branch or ``.get() is None`` branch --
@@ -937,7 +939,7 @@ def run(rep):
                'field; R09.d debug templates auto-escape; R09.e JSON carries the four fields')
     rep.decline('well-formedness of produced XML/HTML bytes, werkzeug Accept negotiation, JSON parseability')
     rep.assume('html.escape(s, True) escapes & < > " \' ; ashes filter semantics as read from the pinned source')
-    rep.rule('R09.a', 'class codes vs http.HTTPStatus; hierarchy; uniqueness; status plumbing')
+    rep.rule('R09.a', 'class codes vs http.HTTPStatus; hierarchy; uniqueness; status plumbing (def-use order of self.code and of the fields rendered in the constructor)')
     rep.rule('R09.b', 'MIME_SUPPORT_MAP exhaustiveness; one (format, mimetype) pair feeds body and header')
     rep.rule('R09.c', 'taint: instance fields reach HTML/XML templates only through html_escape(x, True)')
     rep.rule('R09.d', 'every reference of the shipped debug templates is escaped')
@@ -961,6 +963,102 @@ def _base_init_positional(repo, err, base):
             if init is not None and not init.node.args.vararg:
                 return [x.arg for x in init.node.args.posonlyargs + init.node.args.args][1:]
     return []
+
+
+def value_origin(fi, node):
+    """(expression, statement): the expression whose *evaluation* produces the value of ``node`` and the statement
+    in which that evaluation happens -- single-assignment locals are followed back to their binding (``st = self.code;
+    ...; f(status=st)`` evaluates ``self.code`` in the assignment, not in the call)."""
+    st = _use_stmt(fi, node)
+    for _ in range(8):
+        if not (isinstance(node, ast.Name) and isinstance(node.ctx, ast.Load)) or st is None:
+            break
+        v = local_value(fi, node.id, st)
+        if v is None:
+            break
+        node, st = v, _use_stmt(fi, v)
+    return node, st
+
+
+def _self_attr_stores(fi, attr=None):
+    """[(attribute name, node)] for every write of ``self.<attr>`` in the function: assignment / augmented assignment /
+    del targets and setattr / delattr calls with a constant name (a computed name counts for every attribute)."""
+    ps = fi.params()
+    me = ps[0] if ps else 'self'
+    out = []
+    for n in walk_body(fi.node):
+        if isinstance(n, ast.Attribute) and isinstance(n.ctx, (ast.Store, ast.Del)) and isinstance(n.value, ast.Name) and n.value.id == me:
+            out.append((n.attr, n))
+        elif isinstance(n, ast.Call) and isinstance(n.func, ast.Name) and n.func.id in ('setattr', 'delattr') and len(n.args) >= 2 and \
+                norm(n.args[0]) == me:
+            out.append((n.args[1].value if isinstance(n.args[1], ast.Constant) else None, n))
+    return [(a, n) for a, n in out if attr is None or a is None or a == attr]
+
+
+def _self_uses(repo, cls, meth, seen=None):
+    """(attributes of self read, methods of the class called) by a method, through the self.m() calls it makes; a
+    computed ``getattr(self, ...)`` stands for every to_* serialiser of the class."""
+    seen = {} if seen is None else seen
+    if id(meth.node) in seen:
+        return seen[id(meth.node)]
+    reads, calls = set(), set()
+    seen[id(meth.node)] = (reads, calls)
+    ps = meth.params()
+    if not ps:
+        return reads, calls
+    me = ps[0]
+
+    def through(g):
+        calls.add(g.name)
+        r, c = _self_uses(repo, cls, g, seen)
+        reads.update(r)
+        calls.update(c)
+    for n in walk_body(meth.node):
+        if isinstance(n, ast.Attribute) and isinstance(n.ctx, ast.Load) and isinstance(n.value, ast.Name) and n.value.id == me:
+            g = repo.find_method(cls, n.attr)
+            if g is not None and not g.mod.external:
+                through(g)
+            else:
+                reads.add(n.attr)
+        elif isinstance(n, ast.Call) and isinstance(n.func, ast.Name) and n.func.id == 'getattr' and n.args and norm(n.args[0]) == me and \
+                not (len(n.args) > 1 and isinstance(n.args[1], ast.Constant)):
+            for c in repo.mro(cls):
+                if isinstance(c, ClassInfo) and not c.mod.external:
+                    for name, g in sorted(c.methods.items()):
+                        if name.startswith('to_'):
+                            through(g)
+    return reads, calls
+
+
+def check_constructor_order(rep, repo, err, base, init, icfg):
+    """A rendering of the error made inside the constructor (the default body handed to the response base class, the
+    adapt() for a requested type) sees the instance's fields *after* the constructor's overrides: no path leads from
+    the rendering call to a write of a field the rendering reads.  Otherwise the body shows the class code / message /
+    detail while status and later renderings show the given ones."""
+    ps = init.params()
+    me = ps[0] if ps else 'self'
+    stores = _self_attr_stores(init)
+    n = 0
+    for c in walk_body(init.node):
+        if not (isinstance(c, ast.Call) and isinstance(c.func, ast.Attribute) and isinstance(c.func.value, ast.Name) and c.func.value.id == me):
+            continue
+        g = repo.find_method(base, c.func.attr)
+        if g is None or g.mod.external or g is init:
+            continue
+        reads, calls = _self_uses(repo, base, g)
+        if not any(x.startswith('to_') for x in calls | {g.name}):
+            continue
+        n += 1
+        st = stmt_of(err, c)
+        after = icfg.reach(icfg.nodes_of(st), include_src=False)
+        late = sorted(set(a or '<computed>' for a, sn in stores if (a is None or a in reads) and
+                          (stmt_of(err, sn) is st or set(icfg.nodes_of(stmt_of(err, sn))) & after)))
+        rep.check('R09.a', fkey(init, 'fields set before ' + norm(c.func)), not late,
+                  '%s() is called after every field it reads has been set' % norm(c.func) if not late else
+                  'HTTPException.__init__ calls %s() before self.%s is set: the rendered body shows the class value while the status '
+                  'line / later renderings show the given one' % (norm(c.func), ', self.'.join(late)), err, c)
+    if n < 1:
+        raise AnalysisError('HTTPException.__init__: the rendering of the default body (a self.to_*() call) was not found')
 
 
 def rule_a(rep, repo, err, base, fam):
@@ -1005,16 +1103,35 @@ def rule_a(rep, repo, err, base, fam):
 
     def arg(name):
         return norm(expand_expr(init, kw[name], sst)) if name in kw else None
-    ok = arg('status') == 'self.code'
     cs_ = [s for s in stmts_of(init.node) if isinstance(s, ast.Assign) and any(norm(t) == 'self.code' for t in s.targets)]
     icfg = cfg_of(init)
-    ok = ok and len(cs_) == 1 and norm(expand_expr(init, cs_[0].value, cs_[0])) == "kwargs.pop('code', self.code)" and \
+    # the override: the one write of self.code in the constructor, which every path to the base __init__ executes
+    writes = _self_attr_stores(init, 'code')
+    override = len(cs_) == 1 and len(writes) == 1 and any(t is writes[0][1] for t in cs_[0].targets) and \
+        norm(expand_expr(init, cs_[0].value, cs_[0])) == "kwargs.pop('code', self.code)" and \
         icfg.must_pass(icfg.nodes_of(cs_[0]), icfg.entry, icfg.nodes_of(sst))
+    # the status: where is the value handed over as ``status`` *evaluated*?  Either it is a read of self.code that the
+    # override dominates (in the call itself, in the binding of a local, in the construction of a **dict), or it is the
+    # very value the override stores (``code = kwargs.pop('code', self.code); self.code = code; ...status=code``)
+    ok, why = False, 'BaseResponse.__init__ is not given status=self.code after self.code = kwargs.pop(\'code\', self.code)'
+    if override and 'status' in kw:
+        origin, ost = value_origin(init, kw['status'])
+        if norm(origin) == 'self.code':
+            after = ost is not None and ost is not cs_[0] and icfg.must_pass(icfg.nodes_of(cs_[0]), icfg.entry, icfg.nodes_of(ost)) and \
+                (ost is sst or icfg.must_pass(icfg.nodes_of(ost), icfg.entry, icfg.nodes_of(sst)))
+            ok = bool(after)
+            if not ok:
+                why = 'the status handed to BaseResponse.__init__ is read from self.code at line %s, where self.code = kwargs.pop(\'code\', ' \
+                      'self.code) (line %s) has not (always) run yet: an error created with code=... is sent with the code of its class ' \
+                      'while every body shows the given code' % (getattr(origin, 'lineno', '?'), cs_[0].lineno)
+        else:
+            ok = origin is value_origin(init, cs_[0].value)[0]
     rep.check('R09.a', fkey(init, 'status=self.code'), ok, 'the response status is the instance code (given code, else the class code)' if ok else
-              'BaseResponse.__init__ is not given status=self.code after self.code = kwargs.pop(\'code\', self.code)', err, init.node)
+              why, err, init.node)
     ok = arg('response') == 'self.to_text()' and arg('mimetype') == 'DEFAULT_MIME'
     rep.check('R09.a', fkey(init, 'default body'), ok, 'the default body is the plain-text rendering, labelled DEFAULT_MIME' if ok else
               'the default body / mimetype pair of HTTPException changed', err, init.node)
+    check_constructor_order(rep, repo, err, base, init, icfg)
 
 
 def rule_b(rep, repo, err, app, base):
